@@ -183,70 +183,37 @@ def check_refine(ctx):
 
 
 def check_cover(ctx):
+    """R11-COVER, decided semantically: the hand-over code is executed once by the abstract interpreter on K children with
+    independent symbolic boxes and a symbolic arm, for every outcome of every coordinate comparison (see zoom_step.py)."""
+    from .. import absint as A
+    from .. import zoom_step as Z
     model = ctx.model
     c = model.cls("Zooming")
     fn = model.own_method("Zooming", "receive_reward")
     q = "Zooming.receive_reward"
-    loops = [l for l in ast.walk(fn) if isinstance(l, ast.For) and isinstance(l.target, ast.Name) and
-             any(isinstance(x, ast.Call) and method_name(x) == "make_active" for x in ast.walk(l))]
-    if len(loops) != 1:
-        ctx.violation("R11-COVER", c.file, q, "hand-over loop", "expected one loop over the new children, found %d" % len(loops), fn.lineno)
-        return
-    L = loops[0]
-    child = L.target.id
-    it = norm_src(L.iter)
-    parent = [s for s in ast.walk(fn) if isinstance(s, ast.Assign) and norm_src(s.value) == "self.active_points[self.best_arm]"]
-    pname = norm_src(parent[0].targets[0]) if parent else "?"
-    srcs = {it}
-    for s in ast.walk(fn):
-        if isinstance(s, ast.Assign) and norm_src(s.targets[0]) == it:
-            srcs.add(norm_src(s.value))
-    okit = "%s.get_children()" % pname in srcs
-    ctx.ob("R11-COVER", okit, c.file, q, "loop over all children of the refined cell", "iterates %s" % sorted(srcs), L.lineno)
-    # final decision: if <contains> and not <flag>: M[arm] = child; flag = True  else: make_active(child)
-    last = L.body[-1]
-    ok = False
-    why = "the loop does not end in an either/or: hand the arm over, or activate the child"
-    flag = None
-    cont = None
-    if isinstance(last, ast.If) and last.orelse:
-        atoms = C.flatten_cond(last.test, True)
-        names = [(norm_src(e), pol) for e, pol in atoms]
-        store = [s for s in last.body if isinstance(s, ast.Assign) and norm_src(s.targets[0]) == "self.active_points[self.best_arm]"]
-        act = [s for s in last.orelse if isinstance(s, ast.Expr) and isinstance(s.value, ast.Call) and method_name(s.value) == "make_active"]
-        negs = [n for n, pol in names if not pol]
-        poss = [n for n, pol in names if pol]
-        if len(store) == 1 and norm_src(store[0].value) == child and len(act) == 1 and norm_src(act[0].value.args[0]) == child \
-                and len(last.orelse) == 1 and len(negs) == 1 and len(poss) == 1:
-            flag, cont = negs[0], poss[0]
-            sets = [s for s in last.body if isinstance(s, ast.Assign) and norm_src(s.targets[0]) == flag and norm_src(s.value) == "True"]
-            others = [s for s in last.body if s not in store and s not in sets]
-            ok = len(sets) == 1 and not others
-            why = "if %s and not %s: arm -> child; %s = True / else: make_active(child)" % (cont, flag, flag)
-    ctx.ob("R11-COVER", ok, c.file, q, "every child either takes the arm over or gets a new arm", why, last.lineno)
-    if not ok:
-        return
-    # once-only flag: False before the loop, only set in the hand-over branch
-    blk = None
-    par = model.up(L)
-    for f in ("body", "orelse"):
-        b = getattr(par, f, None)
-        if isinstance(b, list) and L in b:
-            blk = b
-    inits = [s for s in blk[:blk.index(L)] if isinstance(s, ast.Assign) and norm_src(s.targets[0]) == flag]
-    assigns = [s for s in ast.walk(fn) if isinstance(s, ast.Assign) and any(norm_src(t) == flag for t in s.targets)]
-    okf = len(inits) == 1 and norm_src(inits[0].value) == "False" and len(assigns) == 2
-    ctx.ob("R11-COVER", okf, c.file, q, "the arm is handed to at most one child (once-only flag '%s')" % flag,
-           "initialised False before the loop, set True only on hand-over" if okf else "flag assignments: %s" % [norm_src(s) for s in assigns], L.lineno)
-    # containment test: all coordinates within the child's closed box
-    pre = L.body[:-1]
-    outer = [x for x in ast.walk(fn) if isinstance(x, ast.Assign) and not any(x is y for y in ast.walk(L))]
-    okc, whyc = containment_ok(pre, cont, child, outer)
-    ctx.ob("R11-COVER", okc, c.file, q, "'%s' means: every coordinate of the arm lies in the child's box" % cont, whyc, L.lineno)
-    # nothing else in the loop touches the maps
-    other = [x for s in pre for x in ast.walk(s) if isinstance(x, ast.Call) and method_name(x) == "make_active" or
-             isinstance(x, ast.Assign) and any(isinstance(t, ast.Subscript) and is_self_attr(t.value) for t in x.targets)]
-    ctx.ob("R11-COVER", not other, c.file, q, "no other hand-over or activation in the loop", "%s" % [norm_src(x) for x in other], L.lineno, nontrivial=False)
+    configs = [(2, 1), (3, 1), (2, 2)] + ([(3, 2), (4, 1), (2, 3)] if ctx.tier == "thorough" else [])
+    total = 0
+    for K, d in configs:
+        what = "hand-over after a refinement into %d children, dimension %d" % (K, d)
+        try:
+            n, problems = Z.check_paths(model, K, d)
+        except Z.StepProblem as ex:
+            ctx.violation("R11-COVER", c.file, q, what, str(ex), fn.lineno)
+            return
+        except A.Unsupported as ex:
+            ctx.violation("R11-COVER", c.file, q, what, "obligation not discharged: the hand-over code cannot be interpreted (%s)" % ex, fn.lineno)
+            return
+        total += n
+        if problems:
+            for msg, oracles in sorted(problems.items()):
+                ctx.violation("R11-COVER", c.file, q, what, "%s (on %d of %d comparison outcomes)" % (msg, len(oracles), n), fn.lineno)
+        else:
+            ctx.ob("R11-COVER", True, c.file, q, what,
+                   "on all %d outcomes of the coordinate comparisons: every child ends up with exactly one arm - the refined arm goes to the "
+                   "first child whose closed box contains it, every other child gets a new arm at its centre with zero statistics; nothing "
+                   "else changes" % n, fn.lineno)
+    ctx.extra["handover_paths"] = total
+    ctx.count("R11-COVER abstract hand-over paths", total, 40)
 
 
 def containment_ok(pre, cont, child, outer_assigns=None):
